@@ -128,7 +128,7 @@ def c2_order(fb, rep):
                              ('Search::negaScout', 'any recursive search')):
             targets = [(b, i, e) for b, i, e in f.events() if e.get('k') == 'call' and cname(e) == callee]
             if not targets:
-                if callee in ('ClusterTT::probe', 'TBProbe::tbProbe'):
+                if callee == 'ClusterTT::probe' or (callee == 'TBProbe::tbProbe' and f.d.get('targs') == ['true']):
                     rep.broken(clause, '%s not found in %s' % (callee, tag))
                 continue
             for test, tname in ((d50, '50-move test'), (drep, 'repetition test')):
